@@ -509,6 +509,7 @@ func (p *parser) primary() Expr {
 // ---------- contract file model ----------
 
 type Clause struct {
+	View string // "" = checked against the body; "tok" etc. = abstract view used by callers that select it
 	Kind string // requires, ensures, invariant, decreases, assert, ...
 	Text string
 	E    Expr
@@ -531,6 +532,7 @@ type FuncContract struct {
 	Requires  []*Clause
 	Ensures   []*Clause
 	Modifies  []Expr
+	ModViews  []string // view tag per Modifies entry
 	ModAll    bool     // modifies * (everything)
 	NoPanic   bool
 	Loops     map[int]*LoopSpec
@@ -866,6 +868,11 @@ func (cs *ContractSet) loadFile(path string) error {
 }
 
 func parseFuncClause(f *FuncContract, word, rest string, no int, mk func(kind, text string, no int) (*Clause, error)) error {
+	view := ""
+	if k := strings.Index(word, "@"); k >= 0 {
+		view = word[k+1:]
+		word = word[:k]
+	}
 	switch word {
 	case "prop":
 		f.Props = strings.Fields(rest)
@@ -883,6 +890,7 @@ func parseFuncClause(f *FuncContract, word, rest string, no int, mk func(kind, t
 		if err != nil {
 			return err
 		}
+		c.View = view
 		if word == "requires" {
 			f.Requires = append(f.Requires, c)
 		} else {
@@ -899,6 +907,7 @@ func parseFuncClause(f *FuncContract, word, rest string, no int, mk func(kind, t
 				return err
 			}
 			f.Modifies = append(f.Modifies, e)
+			f.ModViews = append(f.ModViews, view)
 		}
 	case "nopanic":
 		f.NoPanic = true
@@ -1099,6 +1108,50 @@ func splitTop(s string) []string {
 	}
 	if t := strings.TrimSpace(s[start:]); t != "" {
 		out = append(out, t)
+	}
+	return out
+}
+
+// ---- views ----
+
+func (f *FuncContract) hasView(v string) bool {
+	if v == "" {
+		return true
+	}
+	for _, c := range f.Requires {
+		if c.View == v {
+			return true
+		}
+	}
+	for _, c := range f.Ensures {
+		if c.View == v {
+			return true
+		}
+	}
+	for _, mv := range f.ModViews {
+		if mv == v {
+			return true
+		}
+	}
+	return false
+}
+
+func clausesFor(cs []*Clause, v string) []*Clause {
+	var out []*Clause
+	for _, c := range cs {
+		if c.View == v {
+			out = append(out, c)
+		}
+	}
+	return out
+}
+
+func (f *FuncContract) modifiesFor(v string) []Expr {
+	var out []Expr
+	for i, m := range f.Modifies {
+		if f.ModViews[i] == v {
+			out = append(out, m)
+		}
 	}
 	return out
 }
